@@ -1,4 +1,4 @@
-CONSTANTS D = {}  MaxArgs = 0  MaxCnt = 0  MaxOps = 0
+CONSTANTS D = {}  MaxArgs = 0  MaxCnt = 0  MaxOps = 0  Prefix <- NoPrefix  AllowNew = TRUE
 INIT TraceInit
 NEXT TraceNext
 INVARIANTS TypeOK EachOrdered Hwm
